@@ -25,8 +25,11 @@ Convs(flags, widths, precs, specs) ==
 \* A: length 3 - literals, escape, 10 conversions plain and fully decorated
 AlphaA == Lits \cup {EscTok} \cup Convs({<<>>}, {<<>>}, {<<>>}, TenSpecs)
                \cup Convs({<<48>>}, {<<53>>}, {<<Dot, 50>>}, TenSpecs)
-\* B: length 2 - 10 conversions x 5 flags x 2 widths x 3 precisions
+\* B: length 2 - 10 conversions x 3 flags x 2 widths x 2 precisions
 AlphaB == Lits \cup {EscTok} \cup
+          Convs({<<>>, <<43>>, <<35>>}, {<<>>, <<49, 48>>}, {<<>>, <<Dot, 51>>}, TenSpecs)
+\* B2 (thorough): length 2 - 10 conversions x 5 flags x 2 widths x 3 precisions
+AlphaB2 == Lits \cup {EscTok} \cup
           Convs({<<>>, <<43>>, <<45>>, <<35>>, <<48>>}, {<<>>, <<49, 48>>}, {<<>>, <<Dot>>, <<Dot, 51>>}, TenSpecs)
 \* C: length 1 - every listed form x 5 flags x 3 widths x 3 precisions
 AlphaC == Lits \cup {EscTok} \cup
@@ -35,12 +38,17 @@ AlphaC == Lits \cup {EscTok} \cup
 AlphaE == AlphaA \cup {LitTok(Ord.h), LitTok(Ord.L), LitTok(48), LitTok(45), LitTok(Ord.s), LitTok(32)}
                  \cup Convs({<<>>, <<45>>}, {<<>>, <<55>>}, {<<>>, <<Dot>>}, {S1("x"), S1("p"), S1("S"), S1("E"), S2("h", "d"), S2("l", "A"), S2("l", "i"), S3("l", "l", "d"), S2("L", "f")})
 \* S: simulation of long strings over a rich alphabet
-AlphaS == AlphaE \cup AlphaB
+AlphaS == AlphaE \cup AlphaB2
 
 MCNext == /\ Len(tokens) < MaxLen
           /\ \E t \in Alphabet : Emit(t)
           /\ (Emitting => PrintT(ToJson([tokens |-> tokens', text |-> text'])))
 MCSpec == Init /\ [][MCNext]_fvars
+\* simulation (-simulate): one random token per step, so that exactly the simulated behaviour is printed
+SimNext == /\ Len(tokens) < MaxLen
+           /\ \E t \in {RandomElement(Alphabet)} : Emit(t)
+           /\ (Emitting => PrintT(ToJson([tokens |-> tokens', text |-> text'])))
+SimSpec == Init /\ [][SimNext]_fvars
 
 \* the machine generates only formats of the supported grammar
 Grammar == InGrammar(tokens)
